@@ -160,11 +160,12 @@ Definition ml_nonzero_nd_level0 (bidx : list pat) (bs : list (Z * Z)) (lt : bool
   filter (keep lt) (map (entry_of bs)
      (odo_loop (0, 0) bidx (total_len bidx) (odo_init_level0 bidx))).
 
-(* MLStructure.nonzero (mlmatrix.py:113-130): dispatch on L.  L = 1 asserts
-   `not lower_tri`: None models the AssertionError. *)
+(* MLStructure.nonzero (mlmatrix.py:113-132): dispatch on L.  L = 1:
+   `IJ = self.bidx[0].T.copy(); if lower_tri: IJ = IJ[:, IJ[1] <= IJ[0]]`.
+   (The result stays an option: the other queries of the model can be refused.) *)
 Definition nonzero (bs : list (Z * Z)) (bidx : list pat) (lt : bool) : option (list (Z * Z)) :=
   match bidx with
-  | [b] => if lt then None else Some b
+  | [b] => Some (filter (keep lt) b)
   | [b1; b2] => Some (ml_nonzero_2d b1 b2 bs lt)
   | [b1; b2; b3] => Some (ml_nonzero_3d b1 b2 b3 bs lt)
   | _ => Some (ml_nonzero_nd bidx bs lt)
